@@ -42,6 +42,14 @@ CLAIMS = {
    text="Theorems: the evaluator reports an error, with the state in which it was raised, only where the context-free big-step rules raise it (soundness, all calling contexts at once because the rules have no notion of context: direct call, tail call through the trampoline, apply, calls from library closures); every application checks the argument count (on the rules, and directly on the trampoline); a call yields a value only if its operator evaluated to a procedure, a reference/assignment only if the variable is bound; along any evaluation, failing or not, no frame and no vector disappears (effects are kept, nothing is rolled back). Tied to the code by valid random programs with one injected fault: 8 fault kinds x 5 calling contexts x position, with an effect completed before the fault and forms reading the state afterwards; kinds compared model vs implementation and against the kind the fault calls for.",
    note=COMMON_NOTE + "; single-fault programs; error locations are C15's subject and are not compared here",
    technique="Coq proof (soundness for context-free big-step rules, arity and inversion lemmas, state monotonicity by mutual induction on derivations) + fault-injection correspondence"),
+ "C13": dict(
+   text="Theorems: a library exposes exactly the external names of its export specs, each bound to the value its body gave the internal name (and every library an import yields is built that way from the library's own frame; an export of an undefined internal name is an error); the body runs in a fresh frame WITHOUT parent, from which no binding of the importer is reachable; a definition in the importer's frame changes no binding and no parent link of any other frame (so what a library's procedures look up is unaffected by importer redefinitions); the first successful import records the instance and every later import of that library on the interpreter returns it without evaluating anything. Tied to interpreter.rs by random import graphs of 1-3 stateful libraries (rename exports, internal state, unexported helpers, procedures reaching other libraries' state) supplied as files / registered sources / mixed, with importer programs that reference, define and redefine colliding names; per-form values, tick counts of library bodies and the final root frame are compared.",
+   note=COMMON_NOTE + "; PARTIAL: full non-interference ('the result of any exported call is independent of importer redefinitions') is given by the store lemmas plus C01, not as one theorem; macros defined in a library leak through the thread-global syntax table (known finding F5 under C19)",
+   technique="Coq proof (export step, closed library frame, instance cache lemmas) + differential correspondence on random stateful library graphs"),
+ "C14": dict(
+   text="Theorems on the loader model: whatever an import attempt does - succeed, fail with any error at any depth of the import graph - afterwards the set of libraries being imported is exactly what it was before, and root frame, program directory and import phase are untouched (mutual induction over eval_import_set / get_library / eval_import / eval_library_definition); a cyclic import is reported exactly when the library is reached while it is being imported, otherwise the outcome is the outcome of loading it; a failed load is not cached; library files are looked up relative to the program's directory. Together: the outcome of an import does not depend on earlier attempts. Tied to the code by every digraph on 1 and 2 libraries (3 sampled in thorough) x every node kind (healthy, missing, faulting body, wrong name, syntactically broken, not UTF-8) x files and registered sources x histories of up to 3 attempts; outcomes compared model vs implementation and each attempt against the same import on a fresh interpreter.",
+   note=COMMON_NOTE + "; termination is by fuel in the model: the bound 'number of libraries + 1 suffices' is not proved (every generated graph terminates on both sides); the file system is an oracle",
+   technique="Coq proof (invariant by mutual fuel induction over the loader) + exhaustive small-graph differential correspondence with history-independence oracle"),
  "C09": dict(
    text="Theorems (Coq, all operands, no size bound): an exact result of + - * / abs is the exact rational result in Q; division by exact zero is an error iff the divisor is zero; floor/ceiling are Qfloor/Qceiling; floor-quotient/remainder satisfy n = d*q + r with q = floor(n/d); operands below 2^15 always give exact results; every result is in normal form; an inexact operand or an unrepresentable exact result gives the binary32 operation on the converted operands. The model (Model/Num.v on Flocq binary32) is tied to src/values.rs by executing both on the complete numeric grid and seeded random operands on every run, compared bit for bit.",
    note="Flocq's four classical/real axioms (named in evidence); Rust f32 = IEEE binary32 (validated bit-for-bit each run); hand-written model tied by differential execution through the public Number API",
